@@ -56,6 +56,9 @@ var trickyStrings = []string{
 	"2002-08-15", "2001-12-14t21:59:43.10-05:00", "<<", "=", "123", "1.5", "+12", "0", "-", "- dash", ": colon", "a: b", "# hash", "a #b", "[", "]", "{a}", "a, b",
 	"*star", "&amp", "!bang", "%pct", "@at", "`tick", "|pipe", ">gt", "'single'", "\"double\"", "it's", "back\\slash", "tab\there", "multi\nline", "trailing\n", "cr\rlf\r\n",
 	"trail ", "unicode ✓ é 日本", "emoji 🚀", "nbsp x", "$VAR", "$$ESC", "{{matrix}}", "?", "? q", "key: value: more", "---", "...", "", " lead",
+	// numeric-looking strings at the edge of yaml.v3's resolver (it strips every '_' before parsing integers, accepts 0b/0o/0x and a sign):
+	// as a key or a value each must come back as the same string (seed C08k: a hand-written quoting test narrower than the resolver)
+	"1_", "1__0", "0x1_", "-1_", "_1", "0b1_0", "-0b11", "0o1_7", "+0x_f", "1_2.3_4", ".5_", "1e1_0", "+.inf", "-.INF", ".NaN", "0_", "1_e3", "._5", "12e03", "0b", "0x",
 }
 
 // genString: strings over tab, LF, CR and printable Unicode outside C0/C1/DEL.
@@ -377,11 +380,15 @@ func (g *gen) commandStep() (omap, umap) {
 			}
 			usedSrc[ps.in] = true
 			var cfg any
-			switch r.Intn(4) {
+			switch r.Intn(5) {
 			case 0:
 				cfg = nil
 			case 1:
 				cfg = omap{}
+			case 2:
+				// a scalar or a list as the whole config; the zero scalars are values, not absences (seed C02k:
+				// the YAML leg alone wrote them as null, so the re-parsed step no longer verified)
+				cfg = []any{false, 0, "", 0.0, true, "text", 7, []any{}, []any{"a", 0}}[r.Intn(9)]
 			default:
 				cfg = genOmap(r, 2, 1+r.Intn(3))
 			}
